@@ -47,14 +47,12 @@ def _overlap_conds(tier):
     if q:
         scen = [("start,stop", 7, 4, -1, 0, False), ("runto,stop", 7, 4, 1, 0, False), ("runto,start", 12, 6, 1, 0, False)]
     else:
-        scen = [("start,stop", 7, 8, -1, -1, True), ("runto,stop", 7, 8, -1, 0, False), ("runto,start", 12, 12, 1, 0, True),
-                ("runto,start", 12, 8, -1, -1, False), ("runtoi,runto", 12, 8, -1, 0, False), ("runto,runtoi", 12, 8, -1, 0, False),
-                ("start,start", 12, 4, -1, 0, False), ("runtoi,stop", 7, 4, -1, 0, False),
-                ("start,stop,start", 12, 6, -1, 0, False), ("runto,stop,start", 12, 6, 1, 0, False)]
+        # sized from a measured run (16 cores): about 35 min for the whole thorough tier
+        scen = [("start,stop", 7, 8, -1, 0, True), ("runto,stop", 7, 8, -1, 0, False), ("runto,start", 12, 8, -1, 2, False),
+                ("start,start", 12, 4, -1, 0, False), ("start,stop,start", 12, 4, -1, 0, False)]
     # a run thread that makes no progress while the middle command (a stop) completes: the stop gives up after its one-second
     # wait and the simulator is left in STOPPING with the run thread still busy; the last command overlaps that
-    stalled = [("start,stop,runto", 12, 1, 2)] if q else [("start,stop,runto", 12, -1, 2), ("runto,stop,start", 12, -1, 2),
-                                                          ("start,stop,start", 12, -1, 0), ("runto,stop,runtoi", 12, 1, 2)]
+    stalled = [("start,stop,runto", 12, 1, 2)] if q else [("start,stop,runto", 12, -1, 2)]
     for sc, pmax, arg, warm in stalled:
         for lo, hi in ((0, 10), (11, 21), (22, 32), (33, 43), (44, 54), (55, 65), (66, 74)):
             # richer model here (events at 1, 2, 2, replication 0..3: the run thread executes 74 statements): a bound that is
@@ -123,8 +121,8 @@ def run(ctx):
         "is pre-empted after p statements of the command (p = 0..7 for stop, 0..12 for start/bounded runs: every statement up to "
         "its polling loop), the run thread then executes w statements (quick: 0..3 or as far as it can go; thorough: any), then "
         "fair round-robin to quiescence; v, p, w, the bound b (1..3) and the warm-up time are symbolic integers; model: one event "
-        "at 1 plus the warm-up event, replication 0..2; quick: start/stop, run_up_to/stop, run_up_to/start; thorough adds "
-        "bounded-run pairs, start/start and three-command alternations (start,stop,start)")
+        "at 1 plus the warm-up event, replication 0..2; quick: start/stop, run_up_to/stop, run_up_to/start and start/stop(stalled run "
+        "thread)/run_up_to on a richer model; thorough: any lead for start/stop, symbolic bounds, plus start/start and start/stop/start")
     ctx.assumptions = [
         "part 1 - inline worker from the live AST: every command runs to quiescence before the next one",
         "part 2 - sequentialiser: SimulatorWorkerThread.run, DEVSSimulator._run and Simulator.start/_start_impl/stop/_stop_impl/"
